@@ -291,6 +291,8 @@ fn family<K: HKey>(s: &mut Sess, rng: &mut Rng, mode: Mode, prop: &'static str, 
 
 pub fn crashes(s: &mut Sess, rng: &mut Rng, n: u64, mode: Mode, prop: &'static str, thorough: bool) {
     for i in 0..n {
+        // C03 "during first-time initialisation": the pre-created tree (oracle-only probe, real code)
+        if mode == Mode::Kill && prop == "C03" && i % 20 == 9 { crate::gate::precreate_crash_probe(s, rng); }
         let big = i % 25 == 7;
         let long = i % 25 == 13;
         let kind = if big { "bytes" } else { KINDS[rng.below(KINDS.len() as u64) as usize] };
